@@ -99,6 +99,8 @@ func (exec *Executor) executeItemOptUnwrapTarget(
 	found *valueList,
 	unwrap bool,
 ) (resultStatus, error) {
+	verifStep(ctx, node)
+
 	// Check for interrupts.
 	select {
 	case <-ctx.Done():
